@@ -30,6 +30,10 @@ SMALL = (0, 1, 2, 7)
 def payload(n, kind):
     if kind == "zeros":
         return b"\x00" * n
+    if kind == "newlines":
+        return b"\n" * n            # the frame terminator's own byte, as payload
+    if kind == "newline-tail":
+        return (payload(n, "random")[:max(0, n - 3)] + b"\n\n\n")[:n]
     out = bytearray()
     x = 987654321
     while len(out) < n:
@@ -231,6 +235,11 @@ def cases(tier):
             for cw in (True, False):
                 out.append((kind, s, "zeros", cw, not cw))
                 out.append((kind, s, "random", cw, cw))
+        # payloads that consist of / end in the terminator byte
+        for s in ((1,), (5,), (2, 3, 1), (3001,), (64000, 1)):
+            for content in ("newlines", "newline-tail"):
+                for cw in (True, False):
+                    out.append((kind, s, content, cw, cw))
     return out
 
 
